@@ -886,15 +886,10 @@ class t2listing(object):
     def read_tables_TOUGH2(self):
         tablename = 'element'
         self.read_header() # only one header at each time
-        last_tablename = None
         while tablename:
             if tablename in self.skip_tables: self.skip_table(tablename)
             elif tablename in self._table: self.read_table(tablename)
-            else: # tables not present at first time step
-                next_tablename = self.next_tablename(last_tablename)
-                if next_tablename:
-                    self.skip_to_table(next_tablename, last_tablename, 1)
-            last_tablename = tablename
+            else: self.skip_table(tablename) # table not present at first time step
             tablename = self.next_table()
 
     def read_tables_TOUGHplus(self):
